@@ -48,10 +48,46 @@ def classify_crash(tb_list, repo):
     return kind == "repo", "%s:%s" % (os.path.basename(fr.filename), fr.name)
 
 
+def start_reach(repo):
+    """Reach evidence: every source line of the repository package executed by this worker (sys.monitoring LINE events,
+    each location disabled after its first hit, so the cost is one callback per line)."""
+    mon = getattr(sys, "monitoring", None)
+    if mon is None or os.environ.get("VERIF_REACH", "1") == "0":
+        return None
+    prefix = os.path.join(repo, "sparseSpACE") + os.sep
+    hits = set()
+    try:
+        tool = mon.COVERAGE_ID
+        mon.use_tool_id(tool, "verif-reach")
+
+        def on_line(code, line):
+            fn = code.co_filename
+            if fn.startswith(prefix):
+                hits.add((fn[len(prefix):], line))
+            return mon.DISABLE
+
+        mon.register_callback(tool, mon.events.LINE, on_line)
+        mon.set_events(tool, mon.events.LINE)
+    except Exception:
+        return None
+    return hits
+
+
+def dump_reach(hits, out_path):
+    if hits is None:
+        return
+    per = {}
+    for f, ln in hits:
+        per.setdefault(f, []).append(ln)
+    with open(out_path + ".reach", "w") as fh:
+        json.dump({f: sorted(v) for f, v in per.items()}, fh)
+
+
 def main():
     prop, chunk_path, out_path = sys.argv[1:4]
     faulthandler.enable()
     repo = setup_paths()
+    reach = start_reach(repo)
     os.environ.setdefault("SPARSESPACE_VERIF", "1")
     warnings.simplefilter("ignore")
     import numpy as np
@@ -100,6 +136,7 @@ def main():
             d["wall"] = time.time() - t0
             out.write(json.dumps(d) + "\n")
             out.flush()
+            dump_reach(reach, out_path)
 
 
 if __name__ == "__main__":
